@@ -265,12 +265,19 @@ def install_magnitude_contracts():
         return True
     M.__neg__ = icontract.ensure(neg_post, error=ContractBroken)(M.__neg__)
 
-    def convert_post(self, magnitude1, result):
+    def convert_old_error(magnitude1):
+        e = magnitude1.error
+        return e.copy() if hasattr(e, 'copy') else e
+
+    def convert_post(self, magnitude1, result, OLD):
         name = 'UnitType.convert'
         COUNTS[name] = COUNTS.get(name, 0) + 1
-        if _is_decimal(magnitude1.value, self.baseunits1.magnitude, self.baseunits2.magnitude) or not _nonneg(magnitude1.error):
+        if _is_decimal(magnitude1.value, self.baseunits1.magnitude, self.baseunits2.magnitude) or not _nonneg(OLD.e0):
             return True
-        e0, e1 = magnitude1.error, result.error
+        e0, e1 = OLD.e0, result.error
+        if e0 is not None and magnitude1.error is not None and not _eq(magnitude1.error, e0, 0.0):
+            _rec08(name, 'conversion-changes-uncertainty-of-its-source', before=e0, after=magnitude1.error,
+                   units=(self.baseunits1.expression, self.baseunits2.expression))
         if e0 is None:
             if e1 is not None:
                 _rec08(name, 'exact-operands-give-uncertain-result', x=magnitude1.value, er=e1)
@@ -288,6 +295,6 @@ def install_magnitude_contracts():
                 _rec08(name, 'linear-conversion-does-not-scale-uncertainty', x=magnitude1.value, e=e0, er=e1, factor=f,
                        units=(self.baseunits1.expression, self.baseunits2.expression))
         return True
-    UT.UnitType.convert = icontract.ensure(convert_post, error=ContractBroken)(UT.UnitType.convert)
+    UT.UnitType.convert = icontract.snapshot(convert_old_error, name='e0')(icontract.ensure(convert_post, error=ContractBroken)(UT.UnitType.convert))
     _installed['magnitude'] = True
     return COUNTS
